@@ -500,7 +500,7 @@ func main() {
 	sort.Strings(keys)
 	for _, k := range keys {
 		f := knownBy[k]
-		fmt.Printf("KNOWN-FINDING: property=%s %s %s: %s (observed %d times in this run)\n", id, f.Key, f.Subject, f.What, knownSeen[k])
+		fmt.Printf("KNOWN-FINDING: property=%s %s %s: %s (observed %d times in this run)\n", id, f.Key, f.Subject, clipStr(f.What, 220), knownSeen[k])
 	}
 	printed := map[string]int{}
 	nViolLines := 0
@@ -523,7 +523,7 @@ func main() {
 		b, _ := json.MarshalIndent(rp, "", " ")
 		os.WriteFile(path, b, 0o644)
 		fmt.Printf("VIOLATION property=%s replay=%s\n", id, path)
-		fmt.Printf("  # %s: %s\n", v.Label, oneLine(v.Msg))
+		fmt.Printf("  # key=%q %s: %s\n", v.Key, v.Label, oneLine(v.Msg))
 		nViolLines++
 	}
 	if len(fresh) > nViolLines {
@@ -538,6 +538,20 @@ func main() {
 	minEvals := p.minEvals(tier)
 	if only == "" && evals < minEvals {
 		inconcl = append(inconcl, fmt.Sprintf("observed only %d evaluations, expected at least %d", evals, minEvals))
+	}
+	if only == "" && p.RequirePositive != "" {
+		seen := 0
+		for k, v := range counters {
+			if strings.HasPrefix(k, p.RequirePositive) {
+				seen++
+				if v <= 0 {
+					inconcl = append(inconcl, fmt.Sprintf("nothing observed for %s", k))
+				}
+			}
+		}
+		if seen < p.RequireCount {
+			inconcl = append(inconcl, fmt.Sprintf("only %d of the expected %d %q subjects were exercised", seen, p.RequireCount, p.RequirePositive))
+		}
 	}
 	if only == "" && len(distinct) < 2 {
 		inconcl = append(inconcl, "fewer than 2 distinct non-trivial cases observed")
@@ -603,6 +617,13 @@ func main() {
 }
 
 var digits = regexp.MustCompile(`[-+]?[0-9][0-9.e+-]*`)
+
+func clipStr(s string, n int) string {
+	if len(s) > n {
+		return s[:n] + "…"
+	}
+	return s
+}
 
 func firstWords(s string, n int) string {
 	f := strings.Fields(s)
